@@ -393,13 +393,17 @@ def forward_signatures(func, calls, args, kwargs, sig):
             raise UnknownForwards
         fwdargsvals = [rn(arg) for arg in fwdargs]
         fwdkwargsvals = dict((n, rn(arg)) for n, arg in fwdkwargs.items())
-        try:
-            fwdargsvals.extend(rn(fwdvarargs))
-            fwdkwargsvals.update(rn(fwdvarkwargs))
-        except (TypeError, ValueError):
-            # the starred expression names something that is neither a
-            # sequence nor a mapping
+        fwdvarargsval = rn(fwdvarargs)
+        fwdvarkwargsval = rn(fwdvarkwargs)
+        if not (
+                isinstance(fwdvarargsval, (Unknown, tuple, list))
+                and isinstance(fwdvarkwargsval, (Unknown, dict))):
+            # the starred expression names something else: not a sequence
+            # or mapping at all, or an iterable that iterating would consume
+            # (generators) or that runs code of its own
             raise UnknownForwards
+        fwdargsvals.extend(fwdvarargsval)
+        fwdkwargsvals.update(fwdvarkwargsval)
         using_partial = wrapped_func is functools.partial
         if using_partial:
             if not fwdargsvals:
